@@ -205,6 +205,18 @@ func introspectRemoteSchema(factory QueryerFactory, url string) (*ast.Schema, er
 		return nil, perr
 	}
 
+	// the printed schema block names only the root types whose names differ from the defaults,
+	// and once there is a block the others are not found by their default names any more
+	if formattedSchema.Query == nil && schema.Query != nil {
+		formattedSchema.Query = formattedSchema.Types[schema.Query.Name]
+	}
+	if formattedSchema.Mutation == nil && schema.Mutation != nil {
+		formattedSchema.Mutation = formattedSchema.Types[schema.Mutation.Name]
+	}
+	if formattedSchema.Subscription == nil && schema.Subscription != nil {
+		formattedSchema.Subscription = formattedSchema.Types[schema.Subscription.Name]
+	}
+
 	return formattedSchema, nil
 }
 
